@@ -91,6 +91,12 @@ pub fn check_case(gen: &Gen, i: u64, acc: &mut Acc, site: &str) {
         }
         for (f, v) in kind.fields.iter().zip(&vals) {
             if let Err(e) = spec::check_field(f, v, &root) {
+                if e.starts_with("typed packet has no field") {
+                    // the public struct changed shape (renamed / removed field): the binding table of
+                    // the harness has to follow; this is not a statement about the wire layout
+                    eprintln!("MACHINERY: {} {}: {e}", kind.name, f.name);
+                    std::process::exit(3);
+                }
                 ok = false;
                 acc.violate(i, format!("C02|{}|{}|decode", kind.name, f.name),
                     format!("{what} [{m}]: field {} of specification frame {}: {e}", f.name, hex(&frame)), replay.clone());
